@@ -19,6 +19,12 @@ type Val struct {
 	Fn    *FnVal // statically known function value
 	Tuple []Val
 	Iter  *IterVal
+	Dyn   *DynVal // interface value whose dynamic type and payload are statically known
+}
+
+type DynVal struct {
+	T types.Type
+	V Val
 }
 
 type FnVal struct {
@@ -316,7 +322,7 @@ func (c *FnCtx) mergeStates(ins []incoming) *State {
 func (c *FnCtx) mergeVals(ins []incoming, vals []Val) Val {
 	same := true
 	for _, v := range vals[1:] {
-		if v.Term != vals[0].Term || v.Addr != vals[0].Addr || v.Fn != vals[0].Fn || v.Iter != vals[0].Iter {
+		if v.Term != vals[0].Term || v.Addr != vals[0].Addr || v.Fn != vals[0].Fn || v.Iter != vals[0].Iter || v.Dyn != vals[0].Dyn {
 			same = false
 		}
 	}
